@@ -25,8 +25,9 @@ Code     == <<"F", "code">>
 E(k)     == <<"F", k>>
 Out(k)   == <<"F", k, "out">>
 Meta(k)  == <<"F", k, "metaf">>
-TmpO(k,p) == <<"F", k, "tmpo", p>>
-TmpM(k,p) == <<"F", k, "tmpm", p>>
+\* temporary files are ordinary children of the entry directory (a clear or an eviction listing it sees and removes them)
+TmpO(k,p) == <<"F", k, "tmpo" \o ToString(p)>>
+TmpM(k,p) == <<"F", k, "tmpm" \o ToString(p)>>
 
 Parent(path) == SubSeq(path, 1, Len(path) - 1)
 IsDirPath(path) == path = F \/ (Len(path) = 2 /\ path[2] \in Keys)
@@ -678,6 +679,18 @@ EmitCrash == (crashed # {}) => PrintT(ToJson([ex |-> ex, ct |-> {<<x, ct[x]>> : 
 
 \* final-state conformance (C11): every file-system state the model can end in when all participants have finished
 EmitFinal == (\A p \in Procs : p \in stopped) => PrintT(ToJson([ex |-> ex, ct |-> {<<x, ct[x]>> : x \in DOMAIN ct \cap ex}]))
+
+\* step conformance (C11): the relation "directory state -> next directory state" over every transition of the model that changes
+\* the directory (owners of temporary files dropped), accumulated in a TLC register and printed once at the end; every change of
+\* the REAL directory between two consecutive file-system calls of a schedule must be in it (ACTION_CONSTRAINT StepRel,
+\* POSTCONDITION PrintRel, one worker)
+ASSUME TLCSet(7, {})
+Strip(x) == IF Len(x) = 3 /\ x[3] \notin {"out", "metaf"}
+            THEN <<x[1], x[2], IF \E p \in Procs : x[3] = "tmpo" \o ToString(p) THEN "tmpo" ELSE "tmpm">>
+            ELSE x
+Proj(e, c) == [ex |-> {Strip(x) : x \in e}, ct |-> {<<Strip(x), c[x]>> : x \in (DOMAIN c) \cap e}]
+StepRel == IF Proj(ex, ct) # Proj(ex', ct') THEN TLCSet(7, TLCGet(7) \cup {<<Proj(ex, ct), Proj(ex', ct')>>}) ELSE TRUE
+PrintRel == PrintT(ToJson(TLCGet(7)))
 
 FinalNameComplete == \A k \in Keys : Out(k) \in ex => ct[Out(k)][1] # "partial"
 
